@@ -8,10 +8,28 @@
 (* (clause impl_order = model drift, never an alarm).                      *)
 (***************************************************************************)
 EXTENDS Timers, Judge
-VARIABLES l, sync, kind
-tvars == <<l, sync, kind>>
 B2I(b) == IF b THEN 1 ELSE 0
 MinOf(X) == CHOOSE x \in X : \A y \in X : x <= y
+VARIABLES l, sync, kind, S2, now2
+\* S2, now2: a second manager of the same type (its timers have no callback effects).  The two managers are independent: an exec of the
+\* second one - also when it is called from inside a callback of the first (a fast tick manager driving a slow one) - fires exactly what is
+\* due in the second and leaves the first alone.  Its events are logged where they happen, i.e. before the enclosing Exec event of the first.
+tvars == <<l, sync, kind, S2, now2>>
+EmptyS(n) == [list |-> <<>>, start |-> [t \in 1..n |-> 0], interval |-> [t \in 1..n |-> 1], cb |-> [t \in 1..n |-> <<"none">>]]
+Obs2(s, tm) ==
+   LET n == Len(s.start) IN
+   [planned |-> [t \in 1..n |-> B2I(t \in Planned(s))],
+    fin |-> [t \in 1..n |-> Deadline(s, t)],
+    empty |-> B2I(Planned(s) = {}),
+    mi |-> IF Planned(s) = {} THEN <<>> ELSE <<MinOf({Deadline(s, t) : t \in Planned(s)}) - tm>>]
+Judge2(ev, s, tm) ==
+   LET exp == Obs2(s, tm) mm == Mismatch(ev, exp)
+   IN IF mm # {} THEN Flag(l, SetToSeq(mm), exp) /\ sync' = FALSE ELSE sync' = TRUE
+Exec2Step(ev) ==
+   LET j == RefExec(S2, ev.now, ev.fired) IN
+   /\ now2' = ev.now /\ UNCHANGED vars
+   /\ IF ~j.ok THEN Flag(l, <<j.clause>>, [second_manager |-> TRUE]) /\ sync' = FALSE /\ S2' = S2
+      ELSE S2' = j.s /\ Judge2(ev, j.s, ev.now)
 
 Obs(s, tm) ==
    [planned |-> [t \in 1..nt' |-> B2I(t \in Planned(s))],
@@ -28,6 +46,7 @@ JudgeSt(ev, extra) ==
    IN IF mm # {} THEN Flag(l, SetToSeq(mm), exp) /\ sync' = FALSE ELSE sync' = TRUE
 
 EffOf(ev) == IF ev.k = "none" THEN <<"none">>
+             ELSE IF ev.k = "exec2" THEN <<"exec2">>
              ELSE IF ev.k = "unplan" THEN <<"unplan", ev.k2>>
              ELSE <<"plan", ev.k2, ev.ds, ev.iv>>
 
@@ -43,12 +62,16 @@ ExecStep(ev) ==
                  ELSE IF im.fired # ev.fired THEN Flag(l, <<"impl_order">>, [fired |-> im.fired]) /\ sync' = TRUE
                  ELSE sync' = TRUE
 
-Step(ev) ==
+Second(ev) == ev.e \in {"Plan2", "Unplan2", "Exec2", "Exec"}
+Step1(ev) ==
    CASE ev.e = "Plan"   -> Plan(ev.t, ev.st, ev.iv) /\ JudgeTm(ev)
      [] ev.e = "Replan" -> Replan(ev.t) /\ JudgeTm(ev)
      [] ev.e = "Unplan" -> Unplan(ev.t) /\ JudgeTm(ev)
      [] ev.e = "SetCb"  -> SetCb(ev.t, EffOf(ev)) /\ JudgeTm(ev)
-     [] ev.e = "Exec"   -> ExecStep(ev)
+     [] ev.e = "Exec"   -> ExecStep(ev) /\ UNCHANGED <<S2, now2>>
+     [] ev.e = "Plan2"  -> UNCHANGED <<vars, now2>> /\ S2' = PlanAt(S2, ev.t, ev.st, ev.iv) /\ Judge2(ev, S2', now2)
+     [] ev.e = "Unplan2" -> UNCHANGED <<vars, now2>> /\ S2' = UnplanT(S2, ev.t) /\ Judge2(ev, S2', now2)
+     [] ev.e = "Exec2"  -> Exec2Step(ev)
      [] ev.e = "SInit"  -> SInit(ev.st, ev.iv) /\ JudgeSt(ev, <<>>)
      [] ev.e = "SPlan"  -> SPlan(ev.st, ev.iv) /\ JudgeSt(ev, <<>>)
      [] ev.e = "SStart" -> SStart(ev.st) /\ JudgeSt(ev, <<>>)
@@ -58,7 +81,10 @@ Step(ev) ==
                          pstart |-> IF SCheck(sm, ev.now) THEN sm.start + sm.interval ELSE sm.start,
                          fin |-> sm.start + sm.interval])
 
-TInit == /\ JInit /\ l = 1 /\ sync = FALSE /\ kind = "tm" /\ nt = 1 /\ now = 0
+Step(ev) ==
+   /\ (~Second(ev) => UNCHANGED <<S2, now2>>)
+   /\ Step1(ev)
+TInit == /\ JInit /\ l = 1 /\ sync = FALSE /\ kind = "tm" /\ nt = 1 /\ now = 0 /\ S2 = EmptyS(0) /\ now2 = 0
          /\ S = [list |-> <<>>, start |-> [t \in 1..1 |-> 0], interval |-> [t \in 1..1 |-> 1], cb |-> [t \in 1..1 |-> <<"none">>]]
          /\ sm = [start |-> 0, interval |-> 1, planed |-> 0]
 TNext ==
@@ -69,9 +95,10 @@ TNext ==
            /\ S' = [list |-> <<>>, start |-> [t \in 1..ev.nt |-> 0], interval |-> [t \in 1..ev.nt |-> 1],
                     cb |-> [t \in 1..ev.nt |-> <<"none">>]]
            /\ sm' = [start |-> 0, interval |-> 1, planed |-> 0]
+           /\ S2' = EmptyS(IF "nt2" \in DOMAIN ev THEN ev.nt2 ELSE 0) /\ now2' = 0
            /\ IF ev.kind = "tm" THEN JudgeTm(ev) ELSE sync' = TRUE
-      ELSE IF ~sync THEN UNCHANGED <<vars, sync, kind>>
-      ELSE IF ev.e = "Fault" THEN Flag(l, <<"fault">>, [kind |-> ev.kind, where |-> ev.where]) /\ sync' = FALSE /\ UNCHANGED <<vars, kind>>
+      ELSE IF ~sync THEN UNCHANGED <<vars, sync, kind, S2, now2>>
+      ELSE IF ev.e = "Fault" THEN Flag(l, <<"fault">>, [kind |-> ev.kind, where |-> ev.where]) /\ sync' = FALSE /\ UNCHANGED <<vars, kind, S2, now2>>
       ELSE UNCHANGED kind /\ Step(ev)
 TSpec == TInit /\ [][TNext]_<<vars, tvars>>
 Accepted == WriteVerdict
